@@ -3,6 +3,7 @@ package interp
 import (
 	"fmt"
 	"runtime/debug"
+	"unsafe"
 	"go/constant"
 	"go/token"
 	"go/types"
@@ -341,6 +342,14 @@ func (fr *frame) prepareCall(call *ssa.CallCommon) (fn Value, args []Value) {
 		if recv.T == nil {
 			m.runtimePanic("invalid memory address or nil pointer dereference (method " + call.Method.Name() + " invoked on nil interface)")
 		}
+		if recv.T == rtypeMarker {
+			fn = m.rtypeMethod(call.Method.Name())
+			args = append(args, recv.V)
+			for _, a := range call.Args {
+				args = append(args, fr.get(a))
+			}
+			return
+		}
 		f := m.lookupMethod(recv.T, call.Method)
 		if f == nil {
 			panic(fmt.Sprintf("method set for dynamic type %v does not contain %s", recv.T, call.Method))
@@ -450,7 +459,15 @@ func (fr *frame) visit(instr ssa.Instruction) continuation {
 
 	case *ssa.Defer:
 		fn, args := fr.prepareCall(&instr.Call)
-		fr.defers = &deferred{fn: fn, args: args, instr: instr, tail: fr.defers}
+		target := fr
+		if instr.DeferStack != nil {
+			if n, ok := fr.get(instr.DeferStack).(Native); ok {
+				if tf, ok := n.V.(*frame); ok {
+					target = tf
+				}
+			}
+		}
+		target.defers = &deferred{fn: fn, args: args, instr: instr, tail: target.defers}
 
 	case *ssa.Go:
 		fn, args := fr.prepareCall(&instr.Call)
@@ -975,6 +992,54 @@ func (m *Machine) callBuiltin(caller *frame, fn *ssa.Builtin, args []Value, site
 
 	case "panic":
 		panic(targetPanic{args[0]})
+
+	case "ssa:deferstack":
+		return Native{caller}
+
+	case "String": // unsafe.String(ptr *byte, len)
+		n := int(m.concInt(args[1], "unsafe.String len"))
+		if n == 0 {
+			return Str{}
+		}
+		p := args[0].(*Value)
+		if p == nil {
+			m.runtimePanic("unsafe.String: ptr is nil and len is not zero")
+		}
+		cells := unsafe.Slice(p, n)
+		bs := make([]*sym.Term, n)
+		for i := range cells {
+			bs[i] = cells[i].(*sym.Term)
+		}
+		return Str{bs}
+
+	case "StringData": // unsafe.StringData(s) *byte
+		s := args[0].(Str)
+		if len(s.B) == 0 {
+			return (*Value)(nil)
+		}
+		a := make([]Value, len(s.B))
+		for i, b := range s.B {
+			a[i] = b
+		}
+		return &a[0]
+
+	case "Slice": // unsafe.Slice(ptr *T, len) []T
+		n := int(m.concInt(args[1], "unsafe.Slice len"))
+		p := args[0].(*Value)
+		if p == nil {
+			if n != 0 {
+				m.runtimePanic("unsafe.Slice: ptr is nil and len is not zero")
+			}
+			return Slice{Nil: true}
+		}
+		return Slice{A: unsafe.Slice(p, n)}
+
+	case "SliceData": // unsafe.SliceData(s []T) *T
+		sl := args[0].(Slice)
+		if cap(sl.A) == 0 {
+			return (*Value)(nil)
+		}
+		return &sl.A[:1][0]
 
 	case "recover":
 		return m.doRecover(caller)
